@@ -324,8 +324,13 @@ func (ex *Exec) equals(a, b Value) *term.T {
 		y, _ := b.(*Closure)
 		return term.Bool(x == nil && y == nil)
 	case Slice:
+		if _, ok := b.(LSlice); ok {
+			return term.False
+		}
 		y := b.(Slice)
 		return term.Bool(x.b == nil && y.b == nil)
+	case LSlice:
+		return term.False
 	case BSlice:
 		y := b.(BSlice)
 		return term.Bool(x.arr == nil && y.arr == nil)
@@ -687,6 +692,8 @@ func (ex *Exec) callBuiltin(b *ssa.Builtin, args []Value, site ssa.CallInstructi
 			return x.len
 		case Slice:
 			return i64(int64(x.len))
+		case LSlice:
+			return x.slen
 		case *MapV:
 			if x == nil {
 				return i64(0)
@@ -715,6 +722,8 @@ func (ex *Exec) callBuiltin(b *ssa.Builtin, args []Value, site ssa.CallInstructi
 			return x.cap
 		case Slice:
 			return i64(int64(x.cap))
+		case LSlice:
+			return x.slen
 		case *ChanV:
 			return i64(int64(x.cap))
 		case Array:
@@ -946,12 +955,12 @@ func (ex *Exec) allocHook(nbytes *term.T) {
 	if ex.env.allocBound == nil {
 		return
 	}
-	if nbytes.IsConst() && ex.env.allocBound.IsConst() {
-		if nbytes.C <= ex.env.allocBound.C {
-			return
-		}
+	if nbytes.IsConst() && nbytes.C <= 4<<20 {
+		return
 	}
-	ok := term.Ule(nbytes, ex.env.allocBound)
+	// "out of proportion" = more than the harness-declared bound plus 4 MiB in a single allocation; the
+	// slack makes every reported violation unmistakable in the native replay (which measures TotalAlloc).
+	ok := term.Ule(nbytes, term.Add(ex.env.allocBound, u64(4<<20)))
 	if ok.IsTrue() {
 		return
 	}
